@@ -258,3 +258,96 @@ func VH_C08_flusher() {
 	n, _ := db.Count(&vObj{})
 	vAssert("C08.flusher.all_on_disk_after_close", err == nil && len(objs) == n)
 }
+
+// VH_C08_unique: concurrent writers competing for the same unique value:
+// the outcome equals one of the two sequential orders (in particular a
+// refused batch leaves nothing behind and two writers never both win).
+func VH_C08_unique() {
+	names := []string{"InsertK5", "Many_1_5", "Many_3_5", "UpdateA_to_5", "DeleteA", "Many_5_6", "InsertK6"}
+	x := vChoice("x", len(names))
+	y := vChoice("y", len(names))
+	if y < x {
+		return
+	}
+	type obs struct {
+		r0, r1 string
+		keys   []int64
+		n      int
+	}
+	run := func(order int) obs {
+		db, _ := vhOpenRich(vhCfgs[0])
+		a := vhNewRich(0, "")
+		a.K = 100
+		vAssert("C08.unique.pre", db.InsertOrUpdate(a) == nil)
+		res := make([]string, 2)
+		mk := func(tag int, k int64) *vRich {
+			return &vRich{K: k, Q: "q" + string(rune('a'+tag)), N: uint64(tag), T: time.Unix(0, int64(tag)), G: float64(tag)}
+		}
+		op := func(which, slot int) func() {
+			base := 1 + slot*2 // distinct Q values per slot
+			switch names[which] {
+			case "InsertK5":
+				return func() { res[slot] = vhErrS(db.InsertOrUpdate(mk(base, 5))) }
+			case "InsertK6":
+				return func() { res[slot] = vhErrS(db.InsertOrUpdate(mk(base, 6))) }
+			case "Many_1_5":
+				return func() {
+					n, err := db.InsertOrUpdateMany(mk(base, 1+int64(slot)*10), mk(base+1, 5))
+					res[slot] = string(rune('0'+n)) + vhErrS(err)
+				}
+			case "Many_3_5":
+				return func() {
+					n, err := db.InsertOrUpdateMany(mk(base, 3+int64(slot)*10), mk(base+1, 5))
+					res[slot] = string(rune('0'+n)) + vhErrS(err)
+				}
+			case "Many_5_6":
+				return func() {
+					n, err := db.InsertOrUpdateMany(mk(base, 5), mk(base+1, 6))
+					res[slot] = string(rune('0'+n)) + vhErrS(err)
+				}
+			case "UpdateA_to_5":
+				return func() {
+					u := *a
+					u.K = 5
+					res[slot] = vhErrS(db.InsertOrUpdate(&u))
+				}
+			case "DeleteA":
+				return func() { res[slot] = vhErrS(db.Delete(a)) }
+			}
+			panic("op")
+		}
+		fx, fy := op(x, 0), op(y, 1)
+		switch order {
+		case 0:
+			fx()
+			fy()
+		case 1:
+			fy()
+			fx()
+		case 2:
+			vPar(fx, fy)
+		}
+		var keys []int64
+		db.AssignIndex(&vRich{}, "K", &keys)
+		n, _ := db.Count(&vRich{})
+		vAssert("C08.unique.control", db.Control() == nil)
+		return obs{res[0], res[1], keys, n}
+	}
+	eq := func(p, q obs) bool {
+		if p.r0 != q.r0 || p.r1 != q.r1 || p.n != q.n || len(p.keys) != len(q.keys) {
+			return false
+		}
+		for i := range p.keys {
+			if p.keys[i] != q.keys[i] {
+				return false
+			}
+		}
+		return true
+	}
+	xy, yx, par := run(0), run(1), run(2)
+	vAssert("C08.unique.linearizable", eq(par, xy) || eq(par, yx))
+	// at no time two stored objects with the same unique key
+	for i := 1; i < len(par.keys); i++ {
+		vAssert("C08.unique.no_duplicate_keys", par.keys[i-1] != par.keys[i])
+	}
+}
